@@ -6,6 +6,7 @@ package websocket
 // name; the bodies below are used only when a witness is replayed natively.
 
 import (
+	"crypto/sha1"
 	"encoding/json"
 	"fmt"
 	"os"
@@ -412,4 +413,15 @@ func vfJoin() {
 			time.Sleep(50 * time.Millisecond)
 		}
 	}
+}
+
+// vfUF is an uninterpreted function for the engine; natively it is the real
+// function named by tag.
+func vfUF(tag string, in []byte, n int) []byte {
+	switch tag {
+	case "sha1":
+		s := sha1.Sum(in)
+		return s[:n]
+	}
+	panic("vfUF: unknown tag " + tag)
 }
